@@ -2,6 +2,7 @@
 
 from __future__ import annotations
 
+import asyncio
 import json
 
 from vlib import core, l3
@@ -22,7 +23,7 @@ def gen(R):
     sim = Model(legacy, variant_multi_nothing=multi_open)
     for _ in range(R.int(3, 18)):
         ctx = R.choice(CTXS[:nctx])
-        k = R.weighted([(6, "define"), (2, "delete"), (1, "rebind"), (7, "call"), (1, "reload_empty"), (2, "outgoing")])
+        k = R.weighted([(6, "define"), (2, "delete"), (1, "rebind"), (7, "call"), (1, "reload_empty"), (1, "reload_race"), (2, "outgoing")])
         if k == "define":
             g += 1
             form = R.weighted([(3, "default"), (4, "one"), (2, "multi"), (2, "two_decs")])
@@ -60,6 +61,11 @@ def gen(R):
         elif k == "reload_empty":
             sim.funcs[ctx] = {}
             ops.append({"op": "reload_empty", "ctx": ctx})
+        elif k == "reload_race":
+            # the context's file is reloaded with one function declaring two alias names; while that declaration is still
+            # being started (the service-description lookup is held by the harness) the file is emptied and reloaded again
+            sim.funcs[ctx] = {}
+            ops.append({"op": "reload_race", "ctx": ctx, "suspend": R.choice([3, 10, 40]), "sr": R.choice([None, "optional"])})
         else:
             form = R.choice(["service.call", "direct"])
             kw = R.choice([{"a": 1}, {"a": "x", "b": [1]}, {}, {"entity_id": "light.z", "n": 2.5}])
@@ -181,6 +187,41 @@ async def execute(case):
                     step["result"] = gctx.global_sym_table.get("_out") if op["ctl"].get("return_response") else None
             elif op["op"] == "reload_empty":
                 await it.reload(op["ctx"])
+            elif op["op"] == "reload_race":
+                import os
+                import sys as _sys
+
+                from custom_components.pyscript.state import State
+
+                path = os.path.join(it.dir, "pyscript", f"{op['ctx'].split('.')[1]}.py")
+                orig_gsp = State.get_service_params.__func__
+                hold = {"n": op["suspend"]}
+
+                async def slow_gsp(cls):
+                    fr, from_service = _sys._getframe(1), False
+                    while fr is not None and not from_service:
+                        from_service = fr.f_code.co_filename.endswith("decorators/service.py")
+                        fr = fr.f_back
+                    for _ in range(hold["n"] if from_service else 0):
+                        await asyncio.sleep(0)
+                    return await orig_gsp(cls)
+
+                State.get_service_params = classmethod(slow_gsp)
+                try:
+                    args = "'vdom.race1', 'vdom.race2'" + (f", supports_response={op['sr']!r}" if op["sr"] else "")
+                    with open(path, "w") as fh:
+                        fh.write(f"@service({args})\ndef racer(**kw):\n    return {{'r': 1}}\n")
+                    os.utime(path, (1_700_000_000 + 10 * i, 1_700_000_000 + 10 * i))
+                    await it.hass.services.async_call("pyscript", "reload", {"global_ctx": op["ctx"]}, blocking=True)
+                    with open(path, "w") as fh:
+                        fh.write("x = 1\n")
+                    os.utime(path, (1_700_000_005 + 10 * i, 1_700_000_005 + 10 * i))
+                    await it.hass.services.async_call("pyscript", "reload", {"global_ctx": op["ctx"]}, blocking=True)
+                    for _ in range(op["suspend"] + 5):
+                        await asyncio.sleep(0)
+                finally:
+                    State.get_service_params = classmethod(orig_gsp)
+                await it.settle(1)
             else:
                 dom, name = op["name"].split(".")
                 n0 = len(it.records)
@@ -232,7 +273,7 @@ def judge(case, trace, leak, variant=False):
             else:
                 m.bound[op["ctx"]].add(op["fn"])
             m.remove(op["ctx"], op["fn"])
-        elif op["op"] == "reload_empty":
+        elif op["op"] in ("reload_empty", "reload_race"):
             m.funcs[op["ctx"]] = {}
             m.bound[op["ctx"]] = set()
         elif op["op"] == "outgoing":
@@ -269,7 +310,7 @@ class C12(ModelCheck):
     rule = (
         "sequences of 3-18 operations over 1-3 contexts: define / redefine a function with @service (default name, one "
         "explicit name, several names in one decorator, two decorators; supports_response none/optional/only) by "
-        "evaluating code in the context the way a Jupyter cell does, delete it, rebind it to a constant, reload the "
+        "evaluating code in the context the way a Jupyter cell does, delete it, rebind it to a constant, reload the file with a two-alias service and empty it again while that declaration is still being started (constructed race), reload the "
         "context's (empty) file, call a service with generated data (with return_response where supported), and "
         "outgoing calls from script code to a recording service through service.call and DOMAIN.SERVICE(**kw) with "
         "blocking / return_response controls; finally unload. Oracle: a model of declarations and owners - after every "
@@ -301,7 +342,7 @@ class C12(ModelCheck):
                 sim.define(op)
             elif op["op"] in ("delete", "rebind"):
                 sim.remove(op["ctx"], op["fn"])
-            elif op["op"] == "reload_empty":
+            elif op["op"] in ("reload_empty", "reload_race"):
                 sim.funcs[op["ctx"]] = {}
         return True
 
@@ -314,7 +355,7 @@ class C12(ModelCheck):
         nt = False
         seen_change = False
         for o in case["ops"]:
-            if o["op"] in ("define", "delete", "rebind", "reload_empty"):
+            if o["op"] in ("define", "delete", "rebind", "reload_empty", "reload_race"):
                 seen_change = True
             elif o["op"] == "call" and seen_change:
                 nt = True
